@@ -222,6 +222,8 @@ package expr
 //@   ensures ok && allEq ==> collTV(res) == ite(e.Not, TV_F, TV_T)
 //@   ensures ok && !allEq && len(res) == 1 ==> collTV(res) == ite(e.Not, TV_T, TV_F)
 //@   ensures ok && len(res) == 0 ==> (exists k int :: 0 <= k && k < len(l) && itemEq3(l[k], r[k]) == 2)
+// a single pair whose comparison has no value gives empty, for = and for != alike
+//@   ensures ok && len(l) == 1 && len(r) == 1 && itemEq3(l[0], r[0]) == 2 ==> len(res) == 0
 //@   assigns nothing
 //
 // Ordering against the reference comparison cmp3 of the two single items (as System values):
